@@ -528,7 +528,7 @@ func runC01(r *Rand, tier string, o *Out) {
 		o.Count("limit-boundary")
 	}
 	// payloads around 64 KiB and its multiples (where readers and transports cut), another message right behind
-	for _, sz := range []int{65535, 65536, 65537, 70000, 131073} {
+	for _, sz := range []int{65535, 65536, 65537, 70000, 131072, 131073, 196608} {
 		h1, _ := genHeader(r, true)
 		p1 := r.Bytes(sz)
 		h1.Size = uint32(len(p1))
@@ -543,6 +543,16 @@ func runC01(r *Rand, tier string, o *Out) {
 			o.Do("P", "msg.read 2 d:"+hx(w[:cut])+" d:"+hx(w[cut:]), true)
 		}
 		o.Count("big:around-64KiB")
+	}
+	// … written to a writer that takes them in pieces
+	for _, sz := range []int{65535, 65536, 70000, 131072} {
+		h, _ := genHeader(r, true)
+		p := r.Bytes(sz)
+		h.Size = uint32(len(p))
+		k := r.Pick(1500, 4096, 16384, 65536)
+		o.Do("P", fmt.Sprintf("msg.pieces %d %d %d %d %d %d %d %d %d %d %s %d %d", k, h.Magic, h.ID, h.Size, h.Version, h.Type, h.Flags,
+			h.Service, h.Object, h.Action, hx(p), 1+r.Intn(27), 1+r.Intn(3000)), true)
+		o.Count("big:written-in-pieces")
 	}
 	// messages that arrive on a real connection (a unix-domain socket) whose peer hangs up behind them, or inside the last one
 	for i := 0; i < 40; i++ {
